@@ -2,6 +2,7 @@ package main
 
 import (
 	"fmt"
+	"strconv"
 	"go/token"
 	"go/types"
 	"os"
@@ -60,6 +61,8 @@ func (w *World) verifyFunc(key string) (g *Gen) {
 	a := g.newAct(fn, 0)
 	a.spec = spec
 	st := State{}
+	w.heapVars["$wm"] = "Int"
+	g.fact("(>= " + g.stateGet(st, "$wm") + " 0)")
 	var args []Val
 	selfVars := map[string]Val{}
 	for _, p := range fn.Params {
@@ -70,6 +73,10 @@ func (w *World) verifyFunc(key string) (g *Gen) {
 				g.fact("(> " + v.T + " 0)")
 				g.refs = append(g.refs, v.T)
 			}
+		}
+		if v.S == "Ref" {
+			w.heapVars["$wm"] = "Int"
+			g.fact("(<= " + v.T + " " + g.stateGet(st, "$wm") + ")")
 		}
 		args = append(args, v)
 	}
@@ -90,6 +97,7 @@ func (w *World) verifyFunc(key string) (g *Gen) {
 	for _, u := range spec.Uses {
 		a.applyUse(env, u, "true", key+"/entry")
 	}
+	a.computeMods()
 	a.run("true", st, args)
 	// anchors that never bound
 	for _, an := range spec.Anchors {
@@ -101,6 +109,13 @@ func (w *World) verifyFunc(key string) (g *Gen) {
 	sort.SliceStable(a.exits, func(i, j int) bool { return a.exits[i].pos < a.exits[j].pos })
 	for ei, ex := range a.exits {
 		a.postAt(ex, ei)
+	}
+	for ei, ex := range a.exits {
+		g.oblige("smoke", fmt.Sprintf("%s/smoke@ret%d", key, ei), ex.reach, "false", "exit is reachable under the contract's assumptions (vacuity check)", g.pos(ex.pos), spec.Props)
+		g.obls[len(g.obls)-1].Smoke = true
+	}
+	if len(a.exits) == 0 {
+		g.oblige("smoke", key+"/smoke/no-exit", "true", "false", "function has no reachable exit", "", spec.Props)
 	}
 	for _, p := range g.problems {
 		g.oblige("subset", key+"/out-of-subset", "true", "false", p, "", spec.Props)
@@ -187,7 +202,7 @@ func (a *Act) frameAt(ex exitPt, ei int, env *Env) {
 	}
 	sort.Strings(hvs)
 	for _, hv := range hvs {
-		if whole[hv] || strings.HasPrefix(hv, "ITER") {
+		if whole[hv] || strings.HasPrefix(hv, "ITER") || hv == "$wm" {
 			continue
 		}
 		cur := ex.st[hv]
@@ -197,17 +212,15 @@ func (a *Act) frameAt(ex exitPt, ei int, env *Env) {
 		}
 		s := g.w.heapVars[hv]
 		var goal string
+		if strings.HasPrefix(hv, "Cell_") {
+			continue // cells are only created by local allocations (locals, varargs arrays)
+		}
 		if strings.HasPrefix(s, "(Array Ref ") {
-			// all refs other than fresh allocations and precise modifies targets keep their value
+			// all refs that existed at entry, other than precise modifies targets, keep their value
 			r := g.fresh("frame_r", "Ref")
-			var ex2 []string
+			ex2 := []string{"(<= " + r + " " + g.stateGet(a.entrySt, "$wm") + ")"}
 			for _, o := range precise[hv] {
 				ex2 = append(ex2, not("(= "+r+" "+o+")"))
-			}
-			for _, o := range g.refs {
-				if strings.HasPrefix(o, "ref_") {
-					ex2 = append(ex2, not("(= "+r+" "+o+")"))
-				}
 			}
 			goal = implies(and(ex2...), "(= (select "+cur+" "+r+") (select "+old+" "+r+"))")
 		} else {
@@ -262,8 +275,7 @@ func (a *Act) modelCall(ctx *blockCtx, key string, callee *ssa.Function, c *ssa.
 	g := a.g
 	switch key {
 	case "token.(Type).String":
-		if k, ok := c.Args[0].(*ssa.Const); ok && tokenStrings != nil {
-			n := k.Int64()
+		if n, err := strconv.ParseInt(args[0].T, 10, 64); err == nil && tokenStrings != nil {
 			if s, ok := tokenStrings[n]; ok {
 				g.usedAssumed["token.(Type).String evaluated by running the real method (go run) at generation time"] = true
 				return Val{T: g.w.lit(s), S: "Str", G: resT}, true
@@ -291,4 +303,23 @@ func (g *Gen) litOf(term string) (string, bool) {
 		}
 	}
 	return "", false
+}
+
+// computeMods evaluates the modifies clause in the entry state (entries that mention
+// results are resolved at the exits only).
+func (a *Act) computeMods() {
+	a.modWhole = map[string]bool{}
+	a.modObjs = map[string][]string{}
+	penv := a.env(a.entrySt, nil, nil)
+	for _, m := range a.spec.Modifies {
+		hv, obj, err := penv.resolveMod(m)
+		if err != nil {
+			continue
+		}
+		if obj == "" {
+			a.modWhole[hv] = true
+		} else {
+			a.modObjs[hv] = append(a.modObjs[hv], obj)
+		}
+	}
 }
